@@ -67,21 +67,29 @@ func (ix *idxEngine) intFacts(p *prover, v ssa.Value, t string, at ssa.Instructi
 // elemLowerBound: sl is made in this function, is not handed to anything that could write its elements,
 // and every element store has a value with constant lower bound >= c (zero-initialised: c <= 0).
 func (p *prover) elemLowerBound(sl ssa.Value) (int64, bool) {
-	ms, ok := p.resolve(sl).(*ssa.MakeSlice)
-	if !ok {
-		return 0, false
-	}
-	key := "elemlb:" + p.canon(ms)
+	rv := p.resolve(sl)
+	key := "elemlb:" + p.canon(rv)
 	if p.lbIn[key] {
 		return 0, true // coinductive: elements read back while proving the stores
+	}
+	ms, ok := rv.(*ssa.MakeSlice)
+	if !ok {
+		return 0, false
 	}
 	st, ok := ms.Type().Underlying().(*types.Slice)
 	if !ok || !isIntType(st.Elem()) {
 		return 0, false
 	}
+	return 0, p.elemStoresNonNeg(ms, st.Elem(), 0)
+}
+
+// elemStoresNonNeg: every store into an element of the slice `root` (a slice made here, or -- when reached from
+// a caller -- a parameter bound to such a slice) stores a value proved >= 0; the slice is not aliased away. A
+// module helper that is handed the slice and may write its elements is examined the same way (depth <= 2).
+func (p *prover) elemStoresNonNeg(root ssa.Value, elem types.Type, depth int) bool {
+	key := "elemlb:" + p.canon(root)
 	p.lbIn[key] = true
 	defer delete(p.lbIn, key)
-	best := int64(0)
 	good := true
 	var visit func(v ssa.Value)
 	seen := map[ssa.Value]bool{}
@@ -119,9 +127,20 @@ func (p *prover) elemLowerBound(sl ssa.Value) (int64, bool) {
 				if b, ok := cc.Value.(*ssa.Builtin); ok && (b.Name() == "len" || b.Name() == "cap") {
 					continue
 				}
-				// handed to a callee: only acceptable when the callee cannot write elements of this element type
-				if p.ix.callMayWriteElems(p.fn, x, st.Elem()) {
+				// handed to a callee: fine when the callee cannot write elements of this element type
+				if !p.ix.callMayWriteElems(p.fn, x, elem) {
+					continue
+				}
+				callee := cc.StaticCallee()
+				if callee == nil || !inModule(callee) || callee.Blocks == nil || depth >= 2 || len(cc.Args) != len(callee.Params) {
 					good = false
+					continue
+				}
+				pc := p.ix.proverFor(callee)
+				for k, a := range cc.Args {
+					if a == v && !pc.elemStoresNonNeg(callee.Params[k], elem, depth+1) {
+						good = false
+					}
 				}
 			case *ssa.Store:
 				// the slice value itself stored somewhere (e.g. into a struct literal): escapes
@@ -131,8 +150,8 @@ func (p *prover) elemLowerBound(sl ssa.Value) (int64, bool) {
 			}
 		}
 	}
-	visit(ms)
-	return best, good
+	visit(root)
+	return good
 }
 
 // callMayWriteElems: may the callee(s) store into elements of a slice with this element type?
